@@ -104,6 +104,9 @@ func runSweep(t *testing.T) {
 	out.NextBatch = batch
 	out.WallS = time.Since(start).Seconds()
 	if failIn != nil {
+		small, n := eng.shrink(t, failIn, failV.Sig())
+		out.ShrinkRuns += n
+		failIn = small.(*Input)
 		v := failV
 		out.Violation = &v
 		out.Replay = writeReplay(t, eng, failIn, failV, 0, false)
